@@ -26,7 +26,7 @@ func init() {
 			"horizon: queries up to 3 days of playing time (whatever the tick count), tempo events in a single track",
 			"inverse domain: durations below 2^40 microseconds and tick rates below 10^7 ticks per second (statement)",
 		},
-		Require: []string{"lookahead_queries_inside_do", "track_selection_reads", "other_events_with_delta_between_tempo_events", "maps", "queries", "border_queries", "monotonic_pairs", "repeated_tick_maps", "late_first_event_maps", "do_events_compared", "inverse_triples", "queries_beyond_2^32_ticks", "do_filtered_events_compared", "tempo_track_not_first", "format2_maps", "large_tempo_maps"},
+		Require: []string{"lookahead_queries_inside_do", "tracks_with_events_2^32_ticks_apart", "track_selection_reads", "other_events_with_delta_between_tempo_events", "maps", "queries", "border_queries", "monotonic_pairs", "repeated_tick_maps", "late_first_event_maps", "do_events_compared", "inverse_triples", "queries_beyond_2^32_ticks", "do_filtered_events_compared", "tempo_track_not_first", "format2_maps", "large_tempo_maps"},
 		Run:     runC11,
 	})
 }
@@ -132,6 +132,21 @@ func runC11(c *mon.Ctx) {
 			if ef.Format == 2 {
 				c.Count("format2_maps", 1)
 			}
+		}
+		farNum, _ := tm.Exact(5 + 1<<32)
+		if i%4 == 1 && tm.Micros(farNum) < 20*24*3600*1_000_000 {
+			// (only where tick 2^32 lies within the multi-day horizon of the statement: high resolutions, fast tempi)
+			// a track with two events exactly 2^32 ticks apart (16 maximal deltas and one of 16 in between)
+			far := []ref.EncEv{{Ev: ref.Ev{Delta: 5, Msg: []byte{0x92, 1, 1}}}}
+			for k := 0; k < 16; k++ {
+				far = append(far, ref.EncEv{Ev: ref.Ev{Delta: 0x0FFFFFFF, Msg: []byte{0x92, byte(2 + k), 1}}})
+			}
+			far = append(far, ref.EncEv{Ev: ref.Ev{Delta: 16, Msg: []byte{0x82, 1, 0}}}, ref.EncEv{Ev: ref.Ev{Delta: 0, Msg: ref.EOT}})
+			ef.Tracks = append(ef.Tracks, far)
+			if ef.Format == 0 {
+				ef.Format = 1
+			}
+			c.Count("tracks_with_events_2^32_ticks_apart", 1)
 		}
 		b := ef.Bytes(nil)
 		in := map[string]any{"resolution": res, "tempo_events(abs tick, us per quarter)": fmt.Sprint(tm.Events), "file": mon.Hex(b)}
